@@ -420,7 +420,7 @@ def parseNums : List (String × JV) → Except Err (List (String × Val))
 /-- `_parse_feature_structure` -/
 def parseFs (K : Consts) (ts : TypeSystem) (tsIdx : Nat) (s : RState) (j : JFs) : Except Err RState :=
   let tyName := if j.ty.endsWith "[]" then arrayTypeNameFor j.ty else j.ty
-  match getType ts tyName with
+  match getTypeExact ts tyName with
   | .error e => .error e
   | .ok t =>
     match j.id with
